@@ -19,7 +19,7 @@ from concurrent.futures import ProcessPoolExecutor
 
 from . import REPO, VERIF
 from .index import AnalysisError, Index
-from .report import load_known
+from .report import load_known, run_property
 
 
 def load_variants():
@@ -28,8 +28,7 @@ def load_variants():
 
 
 def _baseline_keys(prop, repo):
-    mod = importlib.import_module(f"cxa.props.{prop.lower()}")
-    res = mod.run(Index(repo), tier="quick", seed=0)
+    res = run_property(prop, Index(repo), tier="quick", seed=0)
     return {f"{f.rule}|{f.key}" for f in res.findings}
 
 
@@ -51,12 +50,11 @@ def _run_variant(args):
         open(path, "w").write(new)
         out = []
         for prop in v["props"]:
-            mod = importlib.import_module(f"cxa.props.{prop.lower()}")
             try:
-                res = mod.run(Index(tmp), tier="quick", seed=0)
+                res = run_property(prop, Index(tmp), tier="quick", seed=0)
                 keys = {f"{f.rule}|{f.key}": f for f in res.findings}
                 newk = {k: f for k, f in keys.items() if k not in base_keys[prop]}
-                status = "fired" if newk else "silent"
+                status = "fired" if newk else ("analysis-error" if res.incomplete else "silent")
                 rules = sorted({f.rule for f in newk.values()})
             except AnalysisError as e:
                 status, rules, newk = "analysis-error", [str(e)[:80]], {}
@@ -111,11 +109,10 @@ def _run_patch(args):
                 return (v["id"], "stale", "patch does not apply to the current tree")
         out = []
         for prop in v["props"]:
-            mod = importlib.import_module(f"cxa.props.{prop.lower()}")
             try:
-                res = mod.run(Index(tmp), tier="quick", seed=0)
+                res = run_property(prop, Index(tmp), tier="quick", seed=0)
                 newk = {f"{f.rule}|{f.key}" for f in res.findings} - base_keys[prop]
-                out.append((prop, "fired" if newk else "silent", sorted(newk)[:2]))
+                out.append((prop, "fired" if newk else ("analysis-error" if res.incomplete else "silent"), sorted(newk)[:2] or [str(res.incomplete)[:80]]))
             except AnalysisError as e:
                 out.append((prop, "analysis-error", [str(e)[:80]]))
         return (v["id"], "ran", out)
@@ -166,11 +163,10 @@ def run_patch_corpus(props, repo, known, verbose=True):
 def _probe(args):
     """whole-tree behaviour-preserving transformation: findings must not grow, rule instance counts must not shrink."""
     prop, repo, tmp = args
-    mod = importlib.import_module(f"cxa.props.{prop.lower()}")
     out = {}
     for label, root in (("base", repo), ("probe", tmp)):
         try:
-            res = mod.run(Index(root), tier="quick", seed=0)
+            res = run_property(prop, Index(root), tier="quick", seed=0)
             out[label] = ({f"{f.rule}|{f.key}" for f in res.findings}, {k: v["instances"] for k, v in res.rules.items()}, None)
         except AnalysisError as e:
             out[label] = (set(), {}, str(e)[:100])
